@@ -119,6 +119,13 @@ func (c *Ctx) pkg(rel string) *packages.Package {
 	return p
 }
 
+func (c *Ctx) pkgOpt(rel string) *packages.Package {
+	if p := c.Pkgs[modPrefix+rel]; p != nil {
+		return p
+	}
+	return c.Pkgs[rel]
+}
+
 // repoPkgs returns all loaded packages of the repository module, sorted.
 func (c *Ctx) repoPkgs() []*packages.Package {
 	var out []*packages.Package
